@@ -13,6 +13,11 @@ fn main() {
     ctx.run_slice(Slice::new(format!("q-deep[{}]", deep.name()), u.count(), |i, loc| check_input(&u.get(i), loc)));
     // the same inputs with labels whose equality ignores a tag: a failed quotient must leave the tags where they were
     ctx.run_slice(Slice::new(format!("q-deep-tagged-labels[{}]", deep.name()), u.count(), |i, loc| check_tagged(&u.get(i), loc)));
+    // exactly five nodes, two keys, up to three pairs (thorough: four), tags all different: a failed quotient after
+    // earlier merges and several class starts must put every label back where it was
+    let five = Spec { n_min: 5, n_max: 5, e_min: 0, e_max: 0, ks: 0, kt: 0, lw: 2, lx: 1, a: 0, b: 0, q: if quick { 3 } else { 4 } };
+    let fu5 = five.universe();
+    ctx.run_slice(Slice::new(format!("q-five-nodes-tagged-labels[{}]", five.name()), fu5.count(), |i, loc| check_tagged(&fu5.get(i), loc)));
     let edges = if quick { Spec::lax(3, 1, 2, 2, 1, 1, 1, 2) } else { Spec::lax(3, 1, 2, 2, 1, 2, 2, 3) };
     let ue = edges.universe();
     ctx.run_slice(Slice::new(format!("q-edges[{}]", edges.name()), ue.count(), |i, loc| check_input(&ue.get(i), loc)));
